@@ -13,6 +13,8 @@ extern "Rust" {
     fn sonic_rs_verif_atomic_load(handle: usize, order: Ordering) -> *mut ();
     fn sonic_rs_verif_atomic_store_exclusive(handle: usize, value: *mut ());
     fn sonic_rs_verif_atomic_load_exclusive(handle: usize) -> *mut ();
+    fn sonic_rs_verif_atomic_swap(handle: usize, value: *mut (), order: Ordering) -> *mut ();
+    fn sonic_rs_verif_atomic_store(handle: usize, value: *mut (), order: Ordering);
     fn sonic_rs_verif_atomic_cas(
         handle: usize,
         current: *mut (),
@@ -57,6 +59,18 @@ impl<T> AtomicPtr<T> {
     pub(crate) fn load(&self, order: Ordering) -> *mut T {
         self.write_back();
         unsafe { sonic_rs_verif_atomic_load(self.handle, order) as *mut T }
+    }
+
+    #[allow(dead_code)]
+    pub(crate) fn swap(&self, value: *mut T, order: Ordering) -> *mut T {
+        self.write_back();
+        unsafe { sonic_rs_verif_atomic_swap(self.handle, value as *mut (), order) as *mut T }
+    }
+
+    #[allow(dead_code)]
+    pub(crate) fn store(&self, value: *mut T, order: Ordering) {
+        self.write_back();
+        unsafe { sonic_rs_verif_atomic_store(self.handle, value as *mut (), order) }
     }
 
     pub(crate) fn compare_exchange(
